@@ -879,7 +879,16 @@ class Engine(object):
                 pos = self.value(fn, st, args[0])
                 self.oblige(fn, st, i, 'substr', 'substr: %s <= size(%s)' % (pos, oa), ge(self.size_of(st, oa) - pos), chain)
                 return None
+            if sh == 'assign' and len(args) == 2 and oa and ov and not ov[0].startswith('const char *') and ('long' in ov[0] or 'int' in ov[0] or 'size_t' in ov[0]):
+                # vector / string assign(count, value): the container now holds `count` elements
+                st.env[oa + '.size()'] = self.value(fn, st, args[0])
+                return None
             if sh in SIZE_METHODS | PTR_METHODS | END_METHODS or sh in ('empty', 'front', 'back', 'capacity', 'get'):
+                if sh in ('front', 'back') and oa and getattr(self, 'front_needs_element', False):
+                    ot_ = fn.type_of(fn.N(fn.strip(o))) or ''
+                    if ot_.replace('const ', '').startswith('std::vector<'):
+                        sz_ = self.size_of(st, oa)
+                        self.oblige(fn, st, i, sh + '-nonempty', '%s.%s(): the container is not empty (size=%s)' % (oa.split('::')[-1], sh, sz_), ge(sz_ - Lin.const(1)), chain)
                 if sh == 'empty' and oa:
                     sz = self.size_of(st, oa)
                     st.val[i] = ('cond', [[eq(sz)]], [[ge(sz - Lin.const(1))]])
